@@ -1,6 +1,8 @@
 import Proofs.C18Dtype
 import Proofs.C18Ccn
 import Proofs.C18Laws2
+import Proofs.C18Pooled
+import Proofs.C18Weighted
 /-!
 C18 — joint counts are exact and mutual information obeys its algebraic laws.
 
@@ -143,6 +145,35 @@ theorem mi_pooled (a a' b b' : Arr) (nA nB : ℤ) (r r' : JC)
       p.cnt = (r.add r').cnt ∧ ∀ x y, miVal p x y = miVal (r.add r') x y :=
   mi_pooled_core a a' b b' nA nB r r' hFa hFb h h'
 
+/-- `mi_matrix` over any number of trajectories (any dtypes): every cell of the accumulated table is
+the sum of the per-trajectory frame counts -/
+theorem mi_pooled_counts (trajs : List (TArr × TArr)) (nx ny : Int) (p : JC)
+    (hv : ∀ XY ∈ trajs, XY.1.valid ∧ XY.2.valid)
+    (h : miMatrixCounts trajs nx ny = .ok p) :
+    ∀ x y i j, p.cnt x y i j = (trajs.map fun XY => trajCount XY x y i j).sum :=
+  miMatrixCounts_pooled trajs nx ny p hv h
+
+/-! ### weighted estimator -/
+
+/-- under uniform weights (any positive constant, normalised by the code to `1/T`) the weighted
+estimator produces, for every feature pair, exactly the terms the counts-based estimator produces
+from the joint counts of the data set against itself (`M` = the declared number of states, all ids
+below it) -/
+theorem weighted_uniform_eq_counts (X : Arr) (c : ℚ) (hc : 0 < c) (f g : ℕ) (M : ℕ) (hT : 0 < X.T)
+    (hf : ∀ t, t < X.T → 0 ≤ X.get t f ∧ X.get t f < (M : ℤ))
+    (hg : ∀ t, t < X.T → 0 ≤ X.get t g ∧ X.get t g < (M : ℤ)) :
+    wmiTerms X (normWeights (List.replicate X.T c)) M f g
+      = miTerms (fun (u v : ℕ) => frameCount X X f g (u : ℤ) (v : ℤ)) M M :=
+  wmiTerms_uniform X c hc f g M hT hf hg
+
+/-- `weighted_mi` returns those term lists (after its validation stage) -/
+theorem weighted_mi_terms (X : Arr) (wl : List ℚ) (nfs : Option (List ℤ)) (res : WMI)
+    (h : weightedMi X wl nfs = .ok res) :
+    ∃ v, wmiValidate X wl nfs = .ok v ∧ res.states = v.1 ∧
+      res.terms = tabulate X.F fun f => tabulate X.F fun g =>
+        wmiTerms X (normWeights wl) v.2.toNat f g :=
+  weightedMi_ok X wl nfs res h
+
 /-! ### channel capacity normalisation -/
 
 /-- entry `(i, j)` is divided by `log (min n_x[i] n_y[j])`, and that minimum is ≥ 2 -/
@@ -175,6 +206,10 @@ theorem kl_eq_zero_iff (P Q : List ℚ) (ts : List Term) (h : klTerms P Q = .ok 
   rw [div_eq_zero_iff, kl_eq_zero_iff_core P Q ts h hsum]
   have : Real.log base ≠ 0 := (Real.log_pos hb).ne'
   simp [this]
+
+/-- the `inf` result (some `p > 0` where `q = 0`) only occurs for different distributions -/
+theorem kl_inf_only_if_ne (P Q : List ℚ) (h : klTerms P Q = .ok .inf) : P ≠ Q :=
+  kl_inf_ne P Q h
 
 /-! ### non-vacuity: concrete instances satisfying the hypotheses -/
 
@@ -232,6 +267,18 @@ example : guard exA exA 2 2 = .ok () := by decide
 example : miTerms (fun u v => if u = v then 1 else 0) 2 2 = [((1 : ℚ) / 2, 2), ((1 : ℚ) / 2, 2)] := by decide +kernel
 -- the all-zero table (no observations) has no terms: the guarded division skips every cell
 example : miTerms (fun _ _ => 0) 2 2 = [] := by decide +kernel
+
+-- mi_pooled_counts: two trajectories of different dtypes
+example : (miMatrixCounts [(⟨⟨8, true⟩, exA⟩, ⟨⟨16, false⟩, exB⟩), (⟨⟨8, true⟩, exA⟩, ⟨⟨16, false⟩, exB⟩)] 2 3).map
+    JC.toLists = .ok [[[[2, 0, 0], [0, 2, 2]]], [[[0, 0, 2], [2, 2, 0]]]] := by decide
+
+-- weighted_uniform_eq_counts / weighted_mi_terms: three frames, weights 1/3 and unnormalised weights 2
+example : ∀ t, t < exA.T → 0 ≤ exA.get t 0 ∧ exA.get t 0 < ((2 : ℕ) : ℤ) := by decide
+example : (weightedMi exA [1 / 3, 1 / 3, 1 / 3] none).map (·.terms)
+    = (weightedMi exA [2, 2, 2] (some [2, 2])).map (·.terms) := by decide +kernel
+example : (weightedMi exA [1 / 3, 1 / 3, 1 / 3] none).map (·.states) = .ok [2, 2] := by decide +kernel
+example : (weightedMi exA [1 / 3, 1 / 3] none).map (·.states) = .error .dataInvalid := by decide +kernel
+example : (weightedMi exA [1 / 3, -1 / 3, 1] none).map (·.states) = .error .assertion := by decide +kernel
 
 -- ccn_entry: different lengths and different state counts on the two sides; scalar broadcast; errors
 example : channelCapacityArgs 2 3 (.inr [2, 3]) (.inr [4, 5, 2]) = .ok [[2, 2, 2], [3, 3, 2]] := by decide
